@@ -4,6 +4,7 @@ package main
 import (
 	"encoding/hex"
 	"fmt"
+	"math/big"
 	"math/bits"
 	"sort"
 	"strconv"
@@ -967,6 +968,61 @@ func wideChecks() (evaluated int, fails []wideFailure) {
 						add(fam, "wide-reimported-number-differs", fmt.Sprintf("%q -> %q -> %+v, original %+v", lit, text, b, a))
 					}
 				}
+			}
+		}
+	}
+	return
+}
+
+// ---- literals that state a width and carry more than that ----------------------------------------------
+// "the pattern's width is the one the notation states": a sized literal whose digits need more bits than the stated
+// width has no value of that width. It must be rejected (or, if a notation chose to truncate, the number must still
+// obey its stated width in every export). Widths around the byte boundaries, one to nine surplus bits.
+
+func overlongChecks() (evaluated int, fails []wideFailure) {
+	add := func(fam, f, d string) { fails = append(fails, wideFailure{fam, f, d}) }
+	type cand struct {
+		fam, lit string
+		w        int
+	}
+	var cands []cand
+	for _, w := range []int{0, 1, 3, 4, 7, 8, 9, 12, 15, 16, 17, 31, 32, 63, 64} {
+		for _, extra := range []int{1, 2, 4, 8, 9} {
+			bits := "1" + strings.Repeat("0", w+extra-1)
+			cands = append(cands, cand{"bin", fmt.Sprintf("0b<%d>%s", w, bits), w})
+			if w%8 == 0 && w > 0 {
+				cands = append(cands, cand{"hex", fmt.Sprintf("0x<%d>%s", w, bitsToHex(bits)), w})
+			}
+			if w > 0 && w+extra <= 64 {
+				v := new(big.Int).Lsh(big.NewInt(1), uint(w+extra-1))
+				cands = append(cands, cand{"unsigned", fmt.Sprintf("0u<%d>%s", w, v.String()), w})
+			}
+		}
+	}
+	for _, c := range cands {
+		evaluated++
+		var n *bmnumbers.BMNumber
+		var err error
+		func() {
+			defer func() {
+				if p := recover(); p != nil {
+					err = fmt.Errorf("panic: %v", p)
+					add(c.fam, "overlong-literal-panics", fmt.Sprintf("%q: %v", c.lit, p))
+				}
+			}()
+			n, err = bmnumbers.ImportString(c.lit)
+		}()
+		if err != nil || n == nil {
+			continue // rejected: fine
+		}
+		// accepted: then it must be a number of the stated width in every respect
+		if s, err := n.ExportVerilogBinary(); err != nil || !strings.HasPrefix(s, strconv.Itoa(c.w)+"'b") || len(s) != len(strconv.Itoa(c.w))+2+c.w {
+			add(c.fam, "overlong-literal-accepted-with-more-bits-than-stated", fmt.Sprintf("%q is accepted; ExportVerilogBinary gives %q (%v), stated width %d", c.lit, s, err, c.w))
+			continue
+		}
+		if c.w > 0 {
+			if s, err := n.ExportBinaryNBits(c.w); err != nil || len(s) != c.w {
+				add(c.fam, "overlong-literal-accepted-with-more-bits-than-stated", fmt.Sprintf("%q is accepted; ExportBinaryNBits(%d) gives %q (%v)", c.lit, c.w, s, err))
 			}
 		}
 	}
